@@ -51,7 +51,8 @@ Init == /\ kind \in Kinds /\ n \in 1..MaxObs /\ p \in 0..MaxWidth
         /\ scaleSign \in [1..Q(kind) -> Signs] /\ outSign \in OutSigns
         \* magnitude class of outputs and scales, and whether the series is long (hundreds of observations):
         \* "any length >= 1", "all positive scale parameters" in the property
-        /\ magnitude \in {"unit", "large", "small", "long_large", "long_small"}
+        \* ("tiny": quantities in SI units -- outputs of order 1e-9 with scales of order 1e-10; any positive scale is a scale)
+        /\ magnitude \in {"unit", "large", "small", "long_large", "long_small", "tiny"}
         /\ (magnitude # "unit" => (outSign = "pos" /\ \A j \in 1..Q(kind) : scaleSign[j] = "pos" /\ n = 1 /\ p = 0))
         /\ phase = "raw"
 Next == phase = "raw" /\ phase' = "checked" /\ UNCHANGED <<kind, n, p, scaleSign, outSign, magnitude>>
